@@ -618,7 +618,7 @@ def c06(ck):
         return None if v == "ok" else "terminal emulator: current row / cursor column differ from prompt + line / editor cursor: " + v
 
     ck.run_family(Family("session-view", "ses", ses, oracle=oracle, shrink=core.shrink_ops_line(4), decisive=False,
-                         project=lambda o: [(s["text"], s["cur"], s["p"], s["sink"].replace(",F", "").replace("F,", "")) for s in (parse_steps(o) or [])] or o,
+                         bulk_project=lambda outs: drv_run("termproj", outs),
                          nontrivial=lambda c, o: ("w:" in c or ";p:" in c or "1b5b44" in c or "09" in c)))
     # bounded-exhaustive: EVERY sequence of up to `depth` operations over a 13-letter alphabet at tiny buffer sizes (all interleavings at small scale)
     import itertools
@@ -637,7 +637,7 @@ def c06(ck):
         ck.broken(b)
         return ck.finish(trusted=TB_COMMON, rule="build broke")
     ck.run_family(Family("session-exhaustive-depth%d" % depth, "ses", xses, oracle=oracle, shrink=core.shrink_ops_line(4), decisive=False, exhaustive=False,
-                         project=lambda o: [(s["text"], s["cur"], s["p"], s["sink"].replace(",F", "").replace("F,", "")) for s in (parse_steps(o) or [])] or o,
+                         bulk_project=lambda outs: drv_run("termproj", outs),
                          nontrivial=lambda c, o: True))
     # derived command sets: completion inside the line (prefix of a name, blanks after the cursor, Left moves, Tab, more typing, writes)
     declgen, sets = ensure_decls(ck)
@@ -662,13 +662,14 @@ def c06(ck):
         ck.broken(b)
         return ck.finish(trusted=TB_COMMON, rule="build broke")
     ck.run_family(Family("derived-view", "ses", dses, oracle=oracle, shrink=core.shrink_ops_line(4), decisive=False,
-                         project=lambda o: [(s["text"], s["cur"], s["p"], s["sink"].replace(",F", "").replace("F,", "")) for s in (parse_steps(o) or [])] or o,
+                         bulk_project=lambda outs: drv_run("termproj", outs),
                          nontrivial=lambda c, o: True))
     return ck.finish(trusted=TB_COMMON + ["Spec/Terminal.v: unbounded-width line emulator, width-1 characters, no auto-wrap (as the property's quantifier says)"],
                      rule="random sessions (all keys, Cli::write with split texts, set_prompt, handler output and handler prompt changes, four prompts incl. empty and multi-byte, "
                      "buffer sizes 0..64) over width-1 characters, plus EVERY operation sequence up to depth 4 (5 in the thorough tier) over a 13-letter alphabet (two characters, blank, arrows, Backspace, "
                      "Up, Down, Tab, Enter, two writes, set_prompt) at a 4-byte line buffer and 7-byte history; after EVERY call the implementation's sink bytes are fed to the extracted emulator and its current row and cursor "
-                     "column are compared with the implementation's own prompt + editor text and cursor (hooks); sink bytes also compared with the model. derived-view: the same on "
+                     "column are compared with the implementation's own prompt + editor text and cursor (hooks); implementation and model are compared on result, line, cursor, prompt and the SCREEN "
+                     "their bytes produce (visible row, column), not on the bytes themselves, so output that paints the same screen differently is not reported. derived-view: the same on "
                      "generated derived command sets (prefix of a name, blanks after the cursor, Left moves, Tab inside the line, further keys, writes, Enter). non-trivial = "
                      "contains an API write, a prompt change, a cursor move or a completion")
 
